@@ -263,8 +263,9 @@ def decorate_run(shapes, rnd, *, prefix):
             nodes.append({"name": name, "kind": kind, "cap": rnd.choice([0, 0, 1]), "k": rnd.choice([1, 2, 3]),
                           "okey": sh["mode"] != "wf" and rnd.random() < 0.25, "err": 0})
         sc = {"id": "%s%d" % (prefix, i), "mode": sh["mode"], "nodes": nodes, "edges": sh["edges"],
-              "branch": [dict(b, pick=rnd.randrange(2), pre=rnd.choice([0, 1, 1]), bdata=rnd.random() < 0.5) for b in sh["branch"]],
-              "handler": rnd.choice(["none", "none", "close", "read1", "drain"]), "read": rnd.choice([-1, -1, 0, 1, 2]), "experr": False}
+              "branch": [dict(b, pick=rnd.randrange(2), pre=rnd.choice([0, 1, 1]), bdata=rnd.random() < 0.6) for b in sh["branch"]],
+              "handler": rnd.choice(["none", "none", "close", "read1", "drain"]),
+              "read": rnd.choice([-1, 0, 0, 1, 1] if sh["branch"] else [-1, -1, 0, 1, 2]), "experr": False}
         if is_chain(sh) and rnd.random() < 0.8:
             prods = [n for n in nodes if n["kind"] == "S"]
             if prods:
